@@ -429,6 +429,9 @@ def _handler_from_term(site: Site, which, t, node, capture=None) -> Optional[Han
         return HandlerRef("absent")
     if t[0] == "attr" and t[2] in ("on_next", "on_error", "on_completed"):
         return HandlerRef("forward", target=t[1], method=t[2], node=node)
+    if t[0] == "attr" and t[1][0] == "call" and t[1][1][0] == "glob":
+        # a bound method of a library object created by the subscribe function (queue.append): it cannot emit
+        return HandlerRef("method", target=t[1], method=(t[2],), node=node)
     pargs = ()
     if t[0] == "partial":
         pargs = t[2]
@@ -459,6 +462,11 @@ def _handler_from_term(site: Site, which, t, node, capture=None) -> Optional[Han
     if site.instance_of:
         spec.instance = "%s::%s" % (site.anchor_rel, site.short.split(".")[0])
     return HandlerRef("fn", spec=spec, node=node)
+
+
+def _resolve_local_alias(ex, module, in_fn, t, site):
+    """a closure variable of the subscribe function assigned once from an expression: its alternatives"""
+    return t
 
 
 def _subscriptions_by_execution(program, site: Site, ex) -> List[Subscription]:
@@ -538,6 +546,13 @@ def _resolve_handler(program, site: Site, in_fn, which, e, ex=None) -> HandlerRe
         ref = _handler_from_term(site, which, t, e, capture) if t is not None else None
         if ref is not None:
             return ref
+        if t is None:
+            # a choice between bound methods of one library object made at subscription time
+            # (enqueue = queue.extend if extend is True else queue.append): such a handler cannot emit anything
+            ts = ex.eval_all_in_scope(module, in_fn, e, ctx=site.ctx, roles=site.roles)
+            ts = [ _resolve_local_alias(ex, module, in_fn, x, site) for x in (ts or []) ]
+            if ts and all(x is not None and x[0] == "attr" and x[1] == ts[0][1] and x[1][0] == "call" and x[1][1][0] == "glob" for x in ts):
+                return HandlerRef("method", target=ts[0][1], method=tuple(sorted({x[2] for x in ts})), node=e)
     if fn is None:
         raise AnalysisError("%s: cannot resolve %s handler %s of %s" % (
             module.where(e), which, ast.unparse(e), site.name))
